@@ -47,7 +47,7 @@ func main() {
 	vh.Main(&vh.Prop{
 		ID:    "C14",
 		Level: "exploration",
-		Rule: "generated header multisets (Connection lists of 0-5 tokens in odd case/spacing over 0-3 lines, listed and unlisted headers, the nine fixed hop-by-hop names, " +
+		Rule: "generated header multisets (Connection lists of 0-5 tokens in odd case/spacing over 0-3 lines - a fixed share naming an end-to-end field the message carries: Authorization, Cookie, Set-Cookie, Accept -, listed and unlisted headers, the nine fixed hop-by-hop names, " +
 			"look-alike innocent names, Via chains of 0-5 entries over 1-3 lines with/without this instance's entry, X-Forwarded-* on 0-2 lines, Content-Length/Transfer-Encoding combinations) " +
 			"run through httpspec.NewStack directly (net/http-parsed and hand-built header maps) and through a real proxy; a class is " +
 			"(Connection shape x Via shape x X-Forwarded-For shape x framing class x mode), counted after the oracle compared the observed headers with the reference transformer",
@@ -295,6 +295,15 @@ func (g *genCtx) draw() *hset {
 			default:
 				toks = append(toks, []string{`"quoted"`, "a=b", "x y"}[rng.Intn(3)])
 			}
+		}
+		// A fixed share of the lists (decided by the counts already drawn, no further
+		// PRNG draw) names an end-to-end header the message carries - credentials,
+		// cookies, content negotiation: a sender may nominate any field, and a
+		// nominated field is hop-by-hop whatever it usually is.
+		if len(toks) > 0 && (len(toks)+nl)%3 == 0 {
+			e2e := []string{"Authorization", "Cookie", "Set-Cookie", "Accept", "X-A"}[(len(toks)*3+nl)%5]
+			toks[0] = e2e
+			fs = append(fs, msgx.Field{Name: e2e, Value: "e2e-" + strconv.Itoa(len(toks))})
 		}
 		for _, line := range spread(rng, toks, nl) {
 			var els []string
